@@ -4,6 +4,8 @@ import itertools
 import numpy as np
 from hypothesis import strategies as st
 
+from mv import hperm
+
 from mv import gen_atoms, gen_geom, mf, model_atoms as M
 from mv.quiet import silenced
 from mv.runner import FuzzPart, HypPart, Violation
@@ -24,7 +26,7 @@ ASSUMPTIONS = ["image atoms are identified by (charge tag, lattice offset); atom
 @st.composite
 def case(draw, tier="quick"):
     spec = draw(gen_atoms.typed_structure(min_atoms=1, max_atoms=6, max_terms=4, coords=draw(st.sampled_from(["in-cell", "anywhere"])), dups=True))
-    if draw(st.integers(0, 11)) == 0:
+    if draw(hperm.integers(0, 11)) == 0:
         spec = gen_atoms.inflate(spec, 140 // len(spec["pos"]) + 1)         # > 127 atoms before, > 255 after replication
     ck = draw(st.sampled_from(["as-is", "as-is", "rotated"]))
     if ck == "rotated":
@@ -35,12 +37,12 @@ def case(draw, tier="quick"):
     r = draw(st.sampled_from([[2, 1, 1], [1, 2, 1], [1, 1, 2]])) if big else draw(st.sampled_from([[1, 1, 1], [2, 1, 1], [1, 2, 1], [1, 1, 2], [2, 1, 3], [1, 3, 2], [3, 2, 1], [2, 2, 2], [2, 3, 1],
                               [1, 2, 2], [3, 1, 1], [1, 1, 3], [2, 2, 1]]))
     c = {"spec": spec, "r": r, "cell_kind": ck, "rtype": draw(st.sampled_from(["tuple", "list", "array"]))}
-    if draw(st.integers(0, 3)) == 0:
+    if draw(hperm.integers(0, 3)) == 0:
         # history on one object: replicate, edit public arrays directly, replicate again with the same factors
         n = len(spec["pos"])
-        c["edit"] = {"charge": [draw(st.integers(0, n - 1)), round(draw(st.floats(8.0, 9.0)), 4)],
-                     "move": [draw(st.integers(0, n - 1)), [draw(st.floats(0.0, 0.9)) for _ in range(3)]],
-                     "retype": [draw(st.integers(0, n - 1)), draw(st.integers(0, len(spec["type_labels"]) - 1))],
+        c["edit"] = {"charge": [draw(hperm.integers(0, n - 1)), round(draw(st.floats(8.0, 9.0)), 4)],
+                     "move": [draw(hperm.integers(0, n - 1)), [draw(st.floats(0.0, 0.9)) for _ in range(3)]],
+                     "retype": [draw(hperm.integers(0, n - 1)), draw(hperm.integers(0, len(spec["type_labels"]) - 1))],
                      "how": draw(st.sampled_from(["assign-arrays", "in-place"]))}
     return c
 
@@ -206,7 +208,7 @@ def oracle(c, stats):
 @st.composite
 def thorough_case(draw):
     c = draw(case())
-    c["all_factors"] = draw(st.integers(0, 9)) == 0 and len(c["spec"]["pos"]) <= 12
+    c["all_factors"] = draw(hperm.integers(0, 9)) == 0 and len(c["spec"]["pos"]) <= 12
     return c
 
 
